@@ -184,3 +184,20 @@ Proof.
   intros Hf Hok. destruct (exec_rel (m_toks m) ops m s_init (rel_init m Hf) Hok) as [m1 [E1 R1]].
   cbn zeta. rewrite E1. cbn [fst]. eapply html_complete_safe; exact R1.
 Qed.
+
+(* the returned text is valid UTF-8 and the bound is the UTF-16 length of its code points *)
+Theorem html_within_unicode disable utab toks text es :
+  html_complete disable utab b_init toks = Ok (text, es) ->
+  exists cps, Forall cp_valid cps /\ text = utf8_encode cps /\
+    Forall (fun e => 0 <= e_off e /\ 0 <= e_len e /\ e_off e + e_len e <= u16c cps) es.
+Proof.
+  unfold html_complete, html_on.
+  assert (hinv [] [] {| h_b := b_init; h_stack := []; h_attr := [] |} s_init) as H0
+    by (split; [apply (rel_init m_init fresh_init)|constructor]).
+  destruct (parse_inv utab [] [] disable toks _ _ H0) as [Hnp Hok].
+  destruct (parse disable utab {| h_b := b_init; h_stack := []; h_attr := [] |} toks) as [st|e|]; cbn [bind];
+    [|discriminate|contradiction].
+  destruct (Hok st eq_refl) as [s' [R' _]].
+  destruct (complete_within_unicode _ _ _ _ (rel_shrink _ _ _ _ R')) as [cps [es' [Hv [E Hw]]]].
+  rewrite E. intros Heq; inversion Heq; subst. exists cps; auto.
+Qed.
